@@ -28,7 +28,7 @@ static void R_init(spec_sponge *h)
 }
 static void R_update(spec_sponge *h, const unsigned char *buf, size_t len)
 {
-    if ((const void *)buf != stub_long_buf && len <= VERIF_CONTENT_MAX) spec_sponge_absorb(&HPARAMS, h, buf, len);
+    if ((stub_long_buf == 0 || (const void *)buf != stub_long_buf) && len <= VERIF_CONTENT_MAX) spec_sponge_absorb(&HPARAMS, h, buf, len);
     else { h->s = spec_l1(HTAG_ABSORB, h->s, buf, len, h->count, h->mode != 0);
            h->count = (unsigned)(((h->mode ? 0 : h->count) + len) % 8); h->mode = 0; }
 }
